@@ -216,6 +216,14 @@ def _run(ctx, replay):
     for i in sorted(verdict):
         x = by_i[i]
         for s, mv in zip(x["sig"], x["min"]):
+            # a StreamingPull whose FIRST message is rejected races its own sender goroutine: whether
+            # the subscription's expiry was already refreshed is timing-dependent, and so is whether the
+            # minimiser manages to reproduce it. One structural signature for both cases: the stream was
+            # rejected for its first message and the ONLY change is one subscriptions row.
+            if (verdict[i].endswith("error-changed-state") and x.get("rpc") == "StreamingPull" and mv["f"].get("session") == "first"
+                    and str(x.get("diff") or "").split(" ")[0] == "subscriptions:-1+1"
+                    and (mv["f"].get("ack_ids") in ("garbage", "mixed", "blank") or mv["f"].get("modify_deadline") in ("mismatched", "garbage", "blank"))):
+                s = "StreamingPull.~timing-dependent:subscriptions"
             g = groups.setdefault((verdict[i], s), {"clause": verdict[i], "detail": s, "n": 0, "min": mv, "ex": x})
             g["n"] += 1
             # prefer the observation that IS the minimal vector as the example
